@@ -735,12 +735,15 @@ class ServiceInfo(RecordUpdateListener):
         """
         cache = zc.cache
         original_server_key = self.server_key
-        cached_srv_record = cache.get_by_details(self._name, _TYPE_SRV, _CLASS_IN)
-        if cached_srv_record:
-            self._process_record_threadsafe(zc, cached_srv_record, now)
-        cached_txt_record = cache.get_by_details(self._name, _TYPE_TXT, _CLASS_IN)
-        if cached_txt_record:
-            self._process_record_threadsafe(zc, cached_txt_record, now)
+        # A record that was changed leaves its predecessor in the cache until
+        # that is purged: look at all of them (expired ones are ignored when
+        # they are processed), the one that lives longest last so that it wins
+        for type_ in (_TYPE_SRV, _TYPE_TXT):
+            for record in sorted(
+                cache.get_all_by_details(self._name, type_, _CLASS_IN),
+                key=lambda record: record.get_expiration_time(100),
+            ):
+                self._process_record_threadsafe(zc, record, now)
         if original_server_key == self.server_key:
             # If there is a srv which changes the server_key,
             # A and AAAA will already be loaded from the cache
